@@ -1271,7 +1271,7 @@ func (e *ObjectConsExpr) Value(ctx *hcl.EvalContext) (cty.Value, hcl.Diagnostics
 	}
 
 	if !known {
-		return cty.DynamicVal, diags
+		return cty.DynamicVal.WithMarks(marks...), diags
 	}
 
 	return cty.ObjectVal(vals).WithMarks(marks...), diags
